@@ -564,7 +564,11 @@ func c06ring(c *core.Ctx) {
 				return
 			}
 		default:
-			if !newRing(r.Range(-1, 7)) {
+			n := r.Range(-1, 7)
+			if r.Chance(1, 12) {
+				n = r.Range(50, 300)
+			}
+			if !newRing(n) {
 				return
 			}
 		}
